@@ -1958,6 +1958,14 @@ func c16GenDyn(r *vfutil.Rand, l0 c16Leader) ([]c16Leader, [][6]int) {
 	n := r.Intn(3)       // the request during which the input acts
 	k := r.Intn(6)       // … before which of its reads
 	j := 1 + r.Intn(m)   // … how far it gets there
+	if r.Chance(1, 4) {
+		// the whole switch lands inside a data request between Handle's read of the input ids and
+		// StartPoint(nil): the request passed the id check, the channel position is the new id's
+		n, k, j = 1, 3, m
+		if last := &seq[m]; last.D != nil && last.WOpen && len(last.Tail) == 0 {
+			last.Tail = c16HistSeg(last.Cur, last.D.right(), last.D.right()+int64(r.Range(1, 60)))
+		}
+	}
 	var views [][6]int
 	for i := 0; i < n; i++ {
 		views = append(views, [6]int{})
